@@ -81,7 +81,8 @@ def index_terms(exprs, sums, exts):
     return out, apps
 
 
-def ground(ob, ctx, rounds=2, max_terms=60):
+def ground(ob, ctx, rounds=None, max_terms=60):
+    rounds = rounds or getattr(ctx, "ground_rounds", 2)
     ctx._grounding = getattr(ctx, "_grounding", 0) + 1
     try:
         return _ground(ob, ctx, rounds, max_terms)
@@ -121,8 +122,9 @@ def _ground(ob, ctx, rounds=2, max_terms=60):
             a, b = app.arg(0), app.arg(1)
             if kind == "sum":
                 extra.append(z3.Implies(a >= b, app == 0))
-                extra.append(z3.Implies(a < b, app == sym.fn(a, b - 1) + sym.body(b - 1)))
-                extra.append(z3.Implies(a < b, app == sym.body(a) + sym.fn(a + 1, b)))
+                bm1, ap1 = z3.simplify(b - 1), z3.simplify(a + 1)
+                extra.append(z3.Implies(a < b, app == sym.fn(a, bm1) + sym.body(bm1)))
+                extra.append(z3.Implies(a < b, app == sym.body(a) + sym.fn(ap1, b)))
             else:
                 w = sym.wit(a, b)
                 extra.append(z3.Implies(a < b, z3.And(w >= a, w < b, app == sym.body(w))))
@@ -135,7 +137,7 @@ def _ground(ob, ctx, rounds=2, max_terms=60):
         groups = {}
         for aid, ((kind, sym), app) in apps.items():
             if kind == "sum":
-                groups.setdefault((app.arg(0).get_id(), app.arg(1).get_id()), []).append((sym, app))
+                groups.setdefault((z3.simplify(app.arg(0)).get_id(), z3.simplify(app.arg(1)).get_id()), []).append((sym, app))
         for key, lst in groups.items():
             for x in range(len(lst)):
                 for y in range(x + 1, len(lst)):
